@@ -718,6 +718,8 @@ def run(ctx):
         "implementation's value over the one-ulp neighbours of the input (conditioning)",
         "conditional layers, coupling / masked-autoregressive / planar / BNAF flows: the property's identities on the implementation only",
     ]
+    from harness import flowcases
+    flowcases.int_dtype_unit(ctx, "C03", bijections=False, distributions=True)
 
 
 def replay(ctx, rep):
